@@ -288,8 +288,11 @@ def flush(ctx, pend):
     pend.items = []
 
 
-def one(ctx, rs, pend, model, gem, n, bs, decorated, op="fit", randomise=False, sample=False):
+def one(ctx, rs, pend, model, gem, n, bs, decorated, op="fit", randomise=False, sample=False, bs_at_decoration="same"):
     spec = make_spec(rs, model, gem, n, bs, decorated, op, randomise)
+    if bs_at_decoration != "same":
+        spec["bs_at_decoration"] = bs_at_decoration
+        ctx.count("batch_size changed by set_params after the decoration")
     X, y = bl.make_data(rs, n, d_for(rs, spec), gem)
     inp = {"spec": spec, "X": X.tolist(), "y": None if y is None else y.tolist()}
     out = bl.run_real(spec, X, y)
@@ -351,6 +354,12 @@ def run(ctx):
             gem, dec = combos[rs.randint(6)]
             one(ctx, rs, pend, model, gem, n, bs, dec, "fit", randomise=True)
         flush(ctx, pend)
+    # batch_size set AFTER the model was built / decorated (None -> k, k -> None, k -> k')
+    for t in range(12 if quick else 120):
+        model = ["linear", "mlp", "sparse_linear"][t % 3]
+        n = int(rs.randint(5, 10))
+        bs0, bs1 = [(None, int(rs.randint(1, n))), (int(rs.randint(1, n)), None), (int(rs.randint(1, n)), int(rs.randint(1, n + 2)))][t % 3]
+        one(ctx, rs, pend, model, "mmd_ova", n, bs1, decorated=(t % 2 == 0), op="fit", randomise=True, bs_at_decoration=bs0)
     # path runs
     npath = 40 if quick else 800
     for t in range(npath):
